@@ -42,7 +42,7 @@ package task
 //@   ensures result == nil ==> depCallOK(d)                                                            [C01,C03]
 
 //@ func (*Executor).runDeps
-//@   modifies heap
+//@   modifies heap, fs_exists, fs_ver
 //@   preserves $RUNDATA
 //@   blocks
 //@   requires semLimited() ==> tok == 1
@@ -126,14 +126,14 @@ package task
 
 // What calling the execution body of a task means (the closure handed to startExecution).
 //@ fnspec taskBody
-//@   modifies heap
+//@   modifies heap, fs_exists, fs_ver
 //@   preserves $RUNDATA
 //@   blocks
 //@   requires semLimited() ==> tok == 1
 //@   ensures  tok == old(tok)                                                                          [C07]
 
 //@ func (*Executor).RunTask
-//@   modifies heap
+//@   modifies heap, fs_exists, fs_ver
 //@   preserves $RUNDATA
 //@   blocks
 //@   requires semLimited() ==> tok == 0
@@ -173,7 +173,7 @@ package task
 //@   ensures forall j {deferRan(t, j)} :: deferRegistered(t, j) ==> deferRan(t, j)                   [C14]
 
 //@ func (*Executor).runCommand
-//@   modifies heap
+//@   modifies heap, fs_exists, fs_ver
 //@   preserves $RUNDATA
 //@   blocks
 //@   requires semLimited() ==> tok == 1
@@ -194,34 +194,34 @@ package task
 
 //@ func (*Executor).runDeferred
 //@   trusted
-//@   modifies heap
+//@   modifies heap, fs_exists, fs_ver
 //@   preserves $RUNDATA
 //@   blocks
 
 //@ func (*Executor).areTaskPreconditionsMet
-//@   modifies heap
+//@   modifies heap, fs_exists, fs_ver
 //@   preserves $RUNDATA
 //@   blocks
 //@   ensures result.1 == nil ==> result.0                                                              [C13]
 //@ func (*Executor).statusOnError
-//@   modifies heap
+//@   modifies heap, fs_exists, fs_ver
 //@   preserves $RUNDATA
 //@ func (*Executor).mkdir
-//@   modifies heap
+//@   modifies heap, fs_exists, fs_ver
 //@   preserves $RUNDATA
 //@   blocks
 
 // Compiling a task builds a fresh copy (C11 examines this frame); trusted here.
 //@ func (*Executor).CompiledTask
 //@   trusted
-//@   modifies heap
+//@   modifies heap, fs_exists, fs_ver
 //@   preserves $RUNDATA
 //@   blocks
 //@   nilable result
 //@   ensures result.1 == nil ==> result.0 != nil && fresh(result.0)
 //@ func (*Executor).FastCompiledTask
 //@   trusted
-//@   modifies heap
+//@   modifies heap, fs_exists, fs_ver
 //@   preserves $RUNDATA
 //@   nilable result
 //@   ensures result.1 == nil ==> result.0 != nil && fresh(result.0)
@@ -230,7 +230,7 @@ package task
 // later callers wait for it. execOK(h): the registered execution for key h returned nil.
 //@ func (*Executor).startExecution
 //@   param execute fnspec taskBody
-//@   modifies heap
+//@   modifies heap, fs_exists, fs_ver
 //@   preserves $RUNDATA
 //@   blocks
 //@   requires semLimited() ==> tok == 1
@@ -245,10 +245,41 @@ package task
 // Callees of runCommand whose bodies are outside this proof (trusted frames).
 //@ func (*Compiler).FastGetVariables
 //@   trusted
-//@   modifies heap
+//@   modifies heap, fs_exists, fs_ver
 //@   preserves $RUNDATA
 //@ func (*Compiler).GetVariables
 //@   trusted
-//@   modifies heap
+//@   modifies heap, fs_exists, fs_ver
 //@   preserves $RUNDATA
 //@   blocks
+
+// ---- C04 / C12: where the fingerprint is consulted, the dry flag and the method are the executor's -----
+// fpTouched: the fingerprint of t may have been rewritten by this execution (the check ran and was not dry).
+// attempted: a command of t has been started. cleaned(t): statusOnError ran for t.
+//@ ghost var fpTouched bool scratch
+//@ ghost var attempted bool scratch
+//@ ghost fact cleaned(t *ast.Task)
+
+//@ func (*Executor).RunTask$1
+//@   init fpTouched := false
+//@   init attempted := false
+//@   site fingerprint.WithDry#1 requires arg0 == e.Dry                                                [C12,C04]
+//@   site fingerprint.WithMethod#1 requires arg0 == (t.Method != "" ? t.Method : e.Taskfile.Method)  [C04]
+//@   site fingerprint.WithTempDir#1 requires arg0 == e.TempDir.Fingerprint                            [C04]
+//@   site fingerprint.IsTaskUpToDate#1 ghost fpTouched := !e.Dry
+//@   site (*Executor).runCommand#1 ghost attempted := true
+//@   site (*Executor).statusOnError#1 ghost set cleaned(t)
+//@   site (*Executor).mkdir#1 requires !e.Dry                                                         [C12]
+//@   ensures result != nil && fpTouched ==> cleaned(t)                                                [C04]
+
+//@ func (*Executor).statusOnError
+//@   site fingerprint.NewSourcesChecker#1 requires arg0 == (t.Method != "" ? t.Method : e.Taskfile.Method)
+//@        && arg1 == e.TempDir.Fingerprint && arg2 == e.Dry                                           [C04]
+
+//@ func (*Executor).Status
+
+//@   site fingerprint.WithDry#1 requires arg0 == e.Dry                                                [C12]
+
+// Listing tasks for an editor (--list --json) is a query: it must never write fingerprints.
+//@ func (*Executor).ToEditorOutput$1
+//@   site fingerprint.WithDry#1 requires arg0                                                         [C12,C04]
